@@ -60,8 +60,13 @@ theorem applyMsg_view_server {st : Peer} {m : Msg} {v1 : Wire}
     cases hk : st.cs <;> cases a <;> simp [viewOf, serverStep, sCs, viewCs, hk] at h <;>
       (subst h; simp [viewOf, Peer.applyMsg, CsSt.apply, hk, viewCs])
   | tx a =>
-    cases hk : st.tx <;> cases a <;> simp [viewOf, serverStep, sTx, viewTx, hk] at h <;>
-      (subst h; simp [viewOf, Peer.applyMsg, TxSt.apply, hk, viewTx])
+    cases a with
+    | requestTxIds b =>
+      cases b <;> cases hk : st.tx <;> simp [viewOf, serverStep, sTx, viewTx, hk] at h <;>
+        (subst h; simp [viewOf, Peer.applyMsg, TxSt.apply, hk, viewTx])
+    | _ =>
+      cases hk : st.tx <;> simp [viewOf, serverStep, sTx, viewTx, hk] at h <;>
+        (subst h; simp [viewOf, Peer.applyMsg, TxSt.apply, hk, viewTx])
   | ln a =>
     cases hk : st.ln <;> cases a <;> simp [viewOf, serverStep, sLn, viewLn, hk] at h <;>
       (subst h; simp [viewOf, Peer.applyMsg, LnSt.apply, hk, viewLn])
